@@ -365,7 +365,7 @@ func fuzzPackage(u *vk.Unit, p *reg.Package, meta Meta, replay *FuzzCase, pkg st
 		if !cm.IsValid() {
 			continue
 		}
-		bld := &valgen.Builder{Class: valgen.Core, Variants: p.Variants, TimeFormat: meta.TimeFormat, Hook: statusHook(meta, m.Name), MaxDepth: 3}
+		bld := &valgen.Builder{Class: valgen.Core, Variants: p.Variants, Types: p.Types, TimeFormat: meta.TimeFormat, Hook: statusHook(meta, m.Name), MaxDepth: 3}
 		type built struct {
 			args []reflect.Value
 			resp reflect.Value
